@@ -99,28 +99,24 @@ func VerifC23_refreshSingleUse() {
 	}
 }
 
-// VerifC23_pkce: with a stored challenge, only the matching verifier passes.
+// VerifC23_pkce: with a stored challenge, only the matching verifier passes,
+// whatever method the client named (or did not name) when it sent the challenge.
 func VerifC23_pkce() {
-	if !sym.Symbolic() {
-		// natively the real SHA-256 is used: recompute what the model's matching
-		// verifier would have produced
-		verifier := sym.String("verifier", 3)
-		other := sym.String("other", 3)
-		sym.Assume(other != verifier)
-		p := PendingAuthorization{CodeChallenge: c23Challenge(verifier), CodeChallengeMethod: "S256"}
-		sym.Assert(verifyPKCE(p, verifier) == nil, "the matching PKCE verifier was refused")
-		sym.Assert(verifyPKCE(p, other) != nil, "a non-matching PKCE verifier was accepted")
-		return
-	}
 	verifier := sym.String("verifier", 3)
 	other := sym.String("other", 3)
 	sym.Assume(other != verifier)
-	p := PendingAuthorization{CodeChallenge: c23Challenge(verifier), CodeChallengeMethod: "S256"}
+	method := []string{"S256", "", "plain", "s256"}[sym.Choice("method", 4)]
+	p := PendingAuthorization{CodeChallenge: c23Challenge(verifier), CodeChallengeMethod: method}
 	sym.Reach("pkce")
-	sym.Assert(verifyPKCE(p, verifier) == nil, "the matching PKCE verifier was refused")
-	sym.Assert(verifyPKCE(p, other) != nil, "a non-matching PKCE verifier was accepted")
-	p.CodeChallengeMethod = "plain"
-	sym.Assert(verifyPKCE(p, verifier) != nil, "a PKCE method other than S256 was accepted")
+	if method == "S256" {
+		sym.Assert(verifyPKCE(p, verifier) == nil, "the matching PKCE verifier was refused")
+	}
+	sym.Assert(verifyPKCE(p, other) != nil, "a non-matching PKCE verifier was accepted for a code that carries a challenge")
+	if method != "S256" {
+		// the stored challenge is an S256 digest: under any other (or no) method
+		// the verifier cannot be shown to match it
+		sym.Assert(verifyPKCE(p, verifier) != nil, "a code that carries a challenge was accepted under a method other than S256")
+	}
 }
 
 // c23Challenge computes the S256 challenge the way a client does.
